@@ -107,7 +107,7 @@ fn variants<D: Dimension>(a: &Array<Sym, D>) -> Vec<(&'static str, Array<Sym, D>
 }
 
 /// run `body` with a strided view (every 2nd element along every axis of a larger array) holding `a`'s contents
-fn strided_holder<D: Dimension>(a: &Array<Sym, D>, poison: Sym) -> Array<Sym, D> {
+pub fn strided_holder<D: Dimension>(a: &Array<Sym, D>, poison: Sym) -> Array<Sym, D> {
     let mut big_dim = a.raw_dim();
     for ax in 0..a.ndim() { big_dim[ax] = a.shape()[ax] * 2 + 1; }
     let mut big = Array::from_elem(big_dim, poison);
@@ -119,12 +119,12 @@ fn strided_holder<D: Dimension>(a: &Array<Sym, D>, poison: Sym) -> Array<Sym, D>
     }
     big
 }
-fn strided_view_mut<'a, D: Dimension>(big: &'a mut Array<Sym, D>) -> ArrayViewMut<'a, Sym, D> {
+pub fn strided_view_mut<'a, D: Dimension>(big: &'a mut Array<Sym, D>) -> ArrayViewMut<'a, Sym, D> {
     let mut v = big.view_mut();
     for ax in 0..v.ndim() { v.slice_axis_inplace(Axis(ax), Slice::new(1, None, 2)); }
     v
 }
-fn reversed_holder<D: Dimension>(a: &Array<Sym, D>) -> Array<Sym, D> {
+pub fn reversed_holder<D: Dimension>(a: &Array<Sym, D>) -> Array<Sym, D> {
     let mut r = a.clone();
     for ax in 0..a.ndim() { r.invert_axis(Axis(ax)); }
     // r is a reversed VIEW-like owned array (negative strides) with reversed logical contents; make it standard, then invert again:
@@ -167,6 +167,41 @@ macro_rules! entry1d_case {
                 let mut buf = Array::from_elem(single.raw_dim(), konst_frac(7, 1));
                 interp.interp_into(*qv, buf.view_mut()).unwrap();
                 if ids(&buf) != s_ids { ok_into = false; }
+            }
+            // single-call `interp_into` with non-standard buffers and wrongly shaped buffers (C13 / C14)
+            if let Some(qv) = q.iter().next() {
+                let single = interp.interp(*qv).unwrap();
+                let s_ids = ids(&single);
+                if single.ndim() > 0 && !s_ids.is_empty() {
+                    let poison = var("POISON", 12345.0);
+                    let mut fbuf = Array::from_elem(single.raw_dim().f(), poison);
+                    let r = catch_unwind(AssertUnwindSafe(|| interp.interp_into(*qv, fbuf.view_mut())));
+                    ck(checks, format!("C13:{tag}:single-into-f-order-buffer"), matches!(r, Ok(Ok(()))) && ids(&fbuf) == s_ids, String::new());
+                    let mut rbuf = reversed_holder(&Array::from_elem(single.raw_dim(), poison));
+                    let r = catch_unwind(AssertUnwindSafe(|| interp.interp_into(*qv, rbuf.view_mut())));
+                    ck(checks, format!("C13:{tag}:single-into-reversed-buffer"), matches!(r, Ok(Ok(()))) && ids(&rbuf) == s_ids, String::new());
+                    let mut big = strided_holder(&Array::from_elem(single.raw_dim(), konst_frac(0, 1)), poison);
+                    let total_big = big.len();
+                    let r = catch_unwind(AssertUnwindSafe(|| interp.interp_into(*qv, strided_view_mut(&mut big))));
+                    let okr = matches!(r, Ok(Ok(())));
+                    ck(checks, format!("C13:{tag}:single-into-strided-buffer"), okr && ids_v(&strided_view_mut(&mut big)) == s_ids, String::new());
+                    ck(checks, format!("C14:{tag}:single-into-outside-window-untouched"), !okr || big.iter().filter(|s| s.0 == poison.0).count() == total_big - s_ids.len(), String::new());
+                    if builtin {
+                        let want: Vec<usize> = single.shape().to_vec();
+                        let mut shapes: Vec<(String, Vec<usize>)> = Vec::new();
+                        for ax in 0..want.len() {
+                            let mut s2 = want.clone(); s2[ax] += 1; shapes.push((format!("axis{ax}+1"), s2));
+                            if want[ax] > 0 { let mut s2 = want.clone(); s2[ax] -= 1; shapes.push((format!("axis{ax}-1"), s2)); }
+                        }
+                        for a in 0..want.len() { for b in a + 1..want.len() { if want[a] != want[b] { let mut s2 = want.clone(); s2.swap(a, b); shapes.push((format!("swap{a}{b}"), s2)); } } }
+                        for (nm, s2) in shapes {
+                            if let Ok(mut buf) = ArrayD::from_elem(IxDyn(&s2), poison).into_dimensionality::<<$D as Dimension>::Smaller>() {
+                                let r = catch_unwind(AssertUnwindSafe(|| interp.interp_into(*qv, buf.view_mut())));
+                                ck(checks, format!("C14:{tag}:single-into-reject[{nm}]"), !matches!(r, Ok(Ok(()))), format!("shape {:?} for required {:?}", s2, want));
+                            }
+                        }
+                    }
+                }
             }
             ck(checks, format!("C09:{tag}:array-eq-single"), ok_single, detail);
             ck(checks, format!("C09:{tag}:interp_into-eq-interp"), ok_into, String::new());
@@ -365,6 +400,13 @@ pub fn dispatch(cmd: &str, args: &[String], line: &str) {
             "builder" => crate::entry2::builder_table(args, &mut checks),
             "lanes" => crate::entry2::lane_alone(args, &mut checks),
             "layouts" => crate::entry2::layouts(args, &mut checks),
+            "scalar" => crate::entry2::scalar(args, &mut checks),
+            "oracle" => {
+                // bounded concrete stand-in: the property's own oracle on the real crate at f64 / i32 / i64
+                let unit = str_arg(args, "unit", "");
+                let (found, input, expected, observed) = crate::probe::run(unit);
+                ck(&mut checks, format!("{}:oracle[{}]", str_arg(args, "prop", "C00"), unit), !found, if found { format!("input {input}: expected {expected}, observed {observed}") } else { String::new() });
+            }
             other => panic!("unknown scenario command {other}"),
         }
     }));
